@@ -37,6 +37,16 @@
 (*    stored (they have to exist with the right type/stride/default and    *)
 (*    the right length - clause NumParticles);                             *)
 (*  - the output list is compared as a set.                                *)
+(*                                                                         *)
+(* Values.  TLC integers are 32-bit and there are no floats, so in         *)
+(* recorded cases every value other than a tag (property data, defaults,   *)
+(* constants) is the *exact text* of the number: decimal digits for an     *)
+(* integral value of any C type, the hexadecimal float text otherwise.     *)
+(* The relation only ever compares values for equality, so it is decided   *)
+(* here on these texts (2^53+1, UINT_MAX, 0.1f are themselves).  Solver    *)
+(* data are records key text -> value text where the text keeps what       *)
+(* "unchanged" means: numbers by value, str / bytes / bool / None and the  *)
+(* keys of nested dictionaries by kind and value, sequences by elements.   *)
 (***************************************************************************)
 EXTENDS ParticleArray
 
@@ -121,6 +131,20 @@ ClStoredValues(c) ==
 \* real - its real particles come first and num_real_particles counts them
 ClRealParticles(c) == BadReal(c) = {}
 ClSolverData(c) == c.lsd = c.sd
+\* "the same default" is the default in force: a particle appended to the
+\* loaded array (extend(1)) gets, for every property - the built-in tag,
+\* pid, gid included - the default of the array that was dumped
+HasExt(c) == "lext" \in DOMAIN c
+BadAppended(c) ==
+    IF HasExt(c)
+    THEN {ap \in Pairs(c) :
+            /\ ap[1] \in DOMAIN c.lext /\ ap[2] \in DOMAIN c.lext[ap[1]]
+            /\ c.lext[ap[1]][ap[2]] #
+                 Rep(c.arrs[ap[1]].dflt[ap[2]], c.arrs[ap[1]].stride[ap[2]])}
+    ELSE {}
+ClAppendedDefaults(c) ==
+    /\ BadAppended(c) = {}
+    /\ HasExt(c) => \A a \in Both(c) : a \in DOMAIN c.lext
 
 \* version 1: the file holds the stored columns and the solver data only
 \* (get_particle_array adds its default properties, types are its own)
@@ -139,6 +163,7 @@ Clauses(c) ==
           Types |-> ClTypes(c), Strides |-> ClStrides(c),
           Defaults |-> ClDefaults(c), Constants |-> ClConstants(c),
           OutputList |-> ClOutputList(c),
+          AppendedDefaults |-> ClAppendedDefaults(c),
           NumParticles |-> ClNumParticles(c),
           StoredValues |-> ClStoredValues(c),
           RealParticles |-> ClRealParticles(c),
@@ -179,7 +204,10 @@ SameOrder(c) == c.lnames = c.names
 \* `default` for such properties, so the property loads with the default
 \* add_property assumes when none is given - 0, or for a property the
 \* constructor already created (tag, pid, gid) the constructor's default
-AssumedDflt(p) == IF p \in DOMAIN BuiltinDflt THEN BuiltinDflt[p] ELSE 0
+\* (values other than tags are recorded as exact texts, see below)
+AssumedDflt(p) == CASE p = "tag" -> Local
+                    [] p = "gid" -> "4294967295"
+                    [] OTHER -> "0"
 Known_hdf5_default(c) ==
     /\ c.fmt = "hdf5" /\ c.error = "" /\ BadDflt(c) # {}
     /\ \A ap \in BadDflt(c) :
